@@ -361,7 +361,7 @@ func c20FailureBursts(e *Env, cs []pcase, mode string) {
 		byType[ty] = append(byType[ty], i)
 	}
 	const G = 32
-	burst := e.N(20, 200)
+	burst := e.N(15, 200)
 	if mode == "race-workload-child" {
 		burst = e.N(6, 60)
 	}
@@ -529,12 +529,12 @@ func c20Child(e *Env, mode string) {
 			codec.Clear() // every frame encode now misses in the checksum registry: that path must be as free of shared writes as the hit path
 		}
 		buildParFailers(e)
-		G, ops, per := 64, e.N(1000, 10000), 3
+		G, ops, per := 64, e.N(700, 10000), 3
 		if mode == "absent-workload-child" {
-			ops = e.N(300, 3000)
+			ops = e.N(200, 3000)
 		}
 		if mode == "race-workload-child" {
-			ops = e.N(180, 2500)
+			ops = e.N(150, 2500)
 		}
 		cs := buildParallelCases(e, per, false)
 		before := tableSnapshot(e)
